@@ -13,10 +13,10 @@ from symx.core import AND, OR, NOT, IMPLIES, ITE, IFF, SNum, ssum, sym_float, sy
 
 PROPERTY = "C17"
 FILES = ["solvor/cg.py", "solvor/bp.py", "solvor/utils/pricing.py"]
-FUNCTIONS = ["solvor.cg.solve_cg / _solve_cutting_stock / _solve_custom / _solve_master_lp", "solvor.bp.solve_bp / _branch_and_price / _solve_node_lp / "
+FUNCTIONS = ["solvor.cg.solve_cg / _solve_cutting_stock / _solve_custom / _solve_master_lp (also as a unit)", "solvor.bp.solve_bp / _branch_and_price / _solve_node_lp / "
              "_solve_bounded_master_lp / _round_solution / _most_fractional / _build_solution", "solvor.utils.pricing.knapsack_pricing / simplex_phase"]
 BOUNDS = {
-    "quick": "solve_cg: roll widths 6..10 with 1-3 piece sizes (14 instances), demands symbolic Ints in 0..8, plus 6 instances with 4 piece types (demands 0..4); custom pricing over 4 explicit column pools. "
+    "quick": "solve_cg: roll widths 6..10 with 1-3 piece sizes (14 instances), demands symbolic Ints in 0..8, plus 6 instances with 4 piece types (demands 0..4); custom pricing over 6 explicit column pools; the restricted master LP alone on 60 seeded column sets for every demand vector in 0..6. "
              "solve_bp: 5 instances with 2-3 piece types, every demand vector with entries 0..3 (solver-enumerated), plus custom pools",
     "thorough": "widths up to 12, demands 0..16 (cg) and 0..6 (bp), 40 instances",
 }
@@ -24,7 +24,7 @@ OUTSIDE = "larger widths / more piece types / larger demands; non-integer sizes;
 ASSUMPTIONS = ["true minimum = minimum over non-negative integer combinations of ALL feasible patterns (enumerated from sizes and width)",
                "float() shadowed in solvor.cg / solvor.bp so that symbolic demands can enter the tableau; demands are bounded (unbounded Ints with ceil/ToInt terms time z3 out)"]
 STUBS = ["solvor.cg.float, solvor.bp.float := symbolic float"]
-GOALS = {"quick": ["cg.optimal", "cg.feasible_not_optimal", "cg.custom", "bp.optimal", "bp.feasible_not_optimal", "bp.custom"], "thorough": ["cg.optimal", "bp.optimal"]}
+GOALS = {"quick": ["master.optimal", "cg.optimal", "cg.feasible_not_optimal", "cg.custom", "bp.optimal", "bp.feasible_not_optimal", "bp.custom"], "thorough": ["cg.optimal", "bp.optimal"]}
 OPTS = {"quick": {"qto": 15000, "path_wall": 60.0}, "thorough": {"qto": 30000, "path_wall": 120.0}}
 
 
@@ -84,6 +84,31 @@ def h_cg(s, W, sizes, D):
     check_plan(s, "cg", res, dem, all_patterns(W, sizes), lambda p: sum(a * b for a, b in zip(p, sizes)) <= W, Status)
 
 
+def h_master(s, columns, D):
+    """Unit obligation on the restricted master LP: for EVERY demand vector the returned x is feasible and its value is the LP optimum."""
+    mod = importlib.import_module("solvor.cg")
+    m = len(columns[0])
+    dem = [s.int("demand%d" % i, 0, D) for i in range(m)]
+    s.stub(mod, float=sym_float)
+    x, duals, obj = mod._solve_master_lp([tuple(c) for c in columns], list(dem), 1e-9)
+    coverable = all(any(c[i] > 0 for c in columns) for i in range(m))
+    if not isinstance(obj, SNum) and obj == float("inf"):
+        # infeasible master: some demanded piece has no column
+        s.check(OR([AND(dem[i] > 0, not any(c[i] > 0 for c in columns)) for i in range(m)]), "master.infeasible_only_if_uncoverable")
+        s.goal("master.infeasible")
+        return
+    tol = 1e-7
+    s.check(AND([v >= -tol for v in x] + [ssum(columns[j][i] * x[j] for j in range(len(columns))) >= dem[i] - tol for i in range(m)]),
+            "master.primal_feasible")
+    d = obj - ssum(x)
+    s.check(AND(d <= tol, -d <= tol), "master.objective_is_sum_of_x")
+    y = [s.fresh_real("y%d" % j) for j in range(len(columns))]
+    feas = AND([v >= 0 for v in y] + [ssum(columns[j][i] * y[j] for j in range(len(columns))) >= dem[i] for i in range(m)])
+    s.check(IMPLIES(feas, ssum(y) >= obj - tol), "master.value_is_the_lp_optimum")
+    s.goal("master.optimal")
+    s.observe("obj", obj)
+
+
 def make_pricing(pool):
     """Custom pricing: returns the column of a fixed finite pool with the most negative reduced cost 1 - dual.col."""
     def pricing(duals):
@@ -141,6 +166,12 @@ POOLS = [
 ]
 
 
+EXTRA_POOLS = [
+    ([(1, 0, 0), (0, 1, 0), (0, 0, 1), (2, 2, 0), (3, 0, 2)], [(1, 0, 0), (0, 1, 0), (0, 0, 1)]),
+    ([(2, 1), (1, 2), (1, 0), (0, 1), (3, 0)], [(1, 0), (0, 1)]),
+]
+
+
 def items(tier, rng):
     out = []
     q = tier == "quick"
@@ -161,6 +192,17 @@ def items(tier, rng):
     for pool, init in POOLS:
         out.append({"name": "cg_custom", "harness": "h_cg_custom", "params": {"pool": pool, "initial": init, "D": D}, "max_paths": 600})
         out.append({"name": "bp_custom", "harness": "h_bp_custom", "params": {"pool": pool, "initial": init, "D": Db}, "split": 2})
+    # restricted master LP as a unit: seeded column sets (2-3 rows, 3-5 columns, entries 0..3), every demand vector
+    for _ in range(60 if q else 600):
+        m = rng.choice([2, 2, 3])
+        cols = []
+        while len(cols) < rng.randint(3, 5):
+            c = tuple(rng.randint(0, 3) for _ in range(m))
+            if any(c) and c not in cols:
+                cols.append(c)
+        out.append({"name": "master", "harness": "h_master", "params": {"columns": cols, "D": 6 if q else 10}, "max_paths": 400})
+    for pool, init in EXTRA_POOLS:
+        out.append({"name": "cg_custom", "harness": "h_cg_custom", "params": {"pool": pool, "initial": init, "D": D}, "max_paths": 600})
     for it in out:
         if it.get("split") is None:
             it.pop("split", None)
